@@ -58,6 +58,8 @@ enum ConnType {
     Tls(TlsStream<TcpStream>),
     #[cfg(unix)]
     Unix(UnixStream),
+    #[cfg(ldap3_verif)]
+    Verif(Pin<Box<dyn crate::verif::VerifIo>>),
 }
 
 #[cfg(feature = "tls-rustls")]
@@ -157,6 +159,8 @@ impl AsyncRead for ConnType {
             ConnType::Tls(tls) => Pin::new(tls).poll_read(cx, buf),
             #[cfg(unix)]
             ConnType::Unix(us) => Pin::new(us).poll_read(cx, buf),
+            #[cfg(ldap3_verif)]
+            ConnType::Verif(v) => v.as_mut().poll_read(cx, buf),
         }
     }
 }
@@ -169,6 +173,8 @@ impl AsyncWrite for ConnType {
             ConnType::Tls(tls) => Pin::new(tls).poll_write(cx, buf),
             #[cfg(unix)]
             ConnType::Unix(us) => Pin::new(us).poll_write(cx, buf),
+            #[cfg(ldap3_verif)]
+            ConnType::Verif(v) => v.as_mut().poll_write(cx, buf),
         }
     }
 
@@ -179,6 +185,8 @@ impl AsyncWrite for ConnType {
             ConnType::Tls(tls) => Pin::new(tls).poll_flush(cx),
             #[cfg(unix)]
             ConnType::Unix(us) => Pin::new(us).poll_flush(cx),
+            #[cfg(ldap3_verif)]
+            ConnType::Verif(v) => v.as_mut().poll_flush(cx),
         }
     }
 
@@ -189,6 +197,8 @@ impl AsyncWrite for ConnType {
             ConnType::Tls(tls) => Pin::new(tls).poll_shutdown(cx),
             #[cfg(unix)]
             ConnType::Unix(us) => Pin::new(us).poll_shutdown(cx),
+            #[cfg(ldap3_verif)]
+            ConnType::Verif(v) => v.as_mut().poll_shutdown(cx),
         }
     }
 }
@@ -660,6 +670,13 @@ impl LdapConnAsync {
             warn!("no peer certificates found");
             None
         }
+    }
+
+    #[cfg(ldap3_verif)]
+    #[doc(hidden)]
+    /// Verification hook: build a connection over a caller-supplied in-memory transport.
+    pub fn verif_from_io(io: Pin<Box<dyn crate::verif::VerifIo>>) -> (Self, Ldap) {
+        Self::conn_pair(ConnType::Verif(io))
     }
 
     fn conn_pair(ctype: ConnType) -> (Self, Ldap) {
